@@ -1552,6 +1552,44 @@ impl IdmServerProxyWriteTransaction<'_> {
             return Err(Oauth2Error::InvalidOrigin);
         }
 
+        // Check that the account the code was issued for is still within its valid time
+        // window, and that the session which authorised the code has not been revoked
+        // since. Every later use of the tokens (refresh, introspect, userinfo) enforces
+        // this, so the exchange must not hand out tokens that were already invalid.
+        let account_entry = self
+            .qs_write
+            .internal_search_uuid(code_xchg.account_uuid)
+            .map_err(|err| {
+                error!(?err, "Unable to load the account of a token exchange request");
+                Oauth2Error::InvalidGrant
+            })?;
+
+        let within_valid_window = Account::check_within_valid_time(
+            ct,
+            account_entry
+                .get_ava_single_datetime(Attribute::AccountValidFrom)
+                .as_ref(),
+            account_entry
+                .get_ava_single_datetime(Attribute::AccountExpire)
+                .as_ref(),
+        );
+
+        if !within_valid_window {
+            security_info!("Account has expired or is not yet valid, not allowing to proceed");
+            return Err(Oauth2Error::InvalidGrant);
+        }
+
+        let parent_session_revoked = account_entry
+            .get_ava_as_session_map(Attribute::UserAuthTokenSession)
+            .and_then(|sessions| sessions.get(&code_xchg.session_id))
+            .map(|session| matches!(session.state, SessionState::RevokedAt(_)))
+            .unwrap_or(false);
+
+        if parent_session_revoked {
+            security_info!("The session that authorised this token exchange request is revoked");
+            return Err(Oauth2Error::InvalidGrant);
+        }
+
         /*
         // Check that the UAT we are issuing for still is valid.
         //
